@@ -35,6 +35,8 @@ pub enum Ctor {
     WithoutHotReloading,
     SourceWithoutSupport,
     Local,
+    /// with_source on a source whose configure_hot_reloading fails after it stored the EventSender
+    ConfigureFails,
 }
 
 #[derive(Debug, Clone, Serialize, Deserialize)]
@@ -277,7 +279,12 @@ macro_rules! drive {
                             std::thread::yield_now();
                         }
                     } else {
-                        hot_reload_of(&$cache);
+                        // no reloader: nothing to wait for; a fixed number of calls gives a reloader that
+                        // should not exist the time to act on the notifications
+                        for _ in 0..(if $c.ctor == Ctor::ConfigureFails { 40 } else { 1 }) {
+                            hot_reload_of(&$cache);
+                            std::thread::yield_now();
+                        }
                     }
                     // every frozen entry is exactly as it was created
                     for ((k, n), e) in $model.entries.iter_mut() {
@@ -385,7 +392,7 @@ impl Prop for C10 {
     }
 
     fn rule(&self) -> String {
-        "cases = (cache constructor: with_source on a hot-reloadable source (reloader) | without_hot_reloading | with_source on a source without hot-reloading support | LocalAssetCache; \
+        "cases = (cache constructor: with_source on a hot-reloadable source (reloader) | without_hot_reloading | with_source on a source without hot-reloading support | with_source on a source whose configure_hot_reloading fails after having stored the EventSender | LocalAssetCache; \
          history over 3 ids x kinds {reloadable asset, reloadable compound, opt-out asset, opt-out compound, Storable, Arc of an opt-out asset, Arc of a reloadable asset} of load / load_owned / get_or_insert / remove / take / clear, edits of the files behind the ids (all notified), \
          a load racing a get_or_insert, and barriers). At every barrier every frozen entry (created by get_or_insert, or of an opt-out type, or in a cache without reloader) must hold exactly the value it was created with, \
          report ReloadId::NEVER and no reload, and Handle::get() must return the same address and content. \
@@ -407,7 +414,7 @@ impl Prop for C10 {
     }
 
     fn strategy(&self, _tier: Tier) -> BoxedStrategy<Value> {
-        let ctor = prop_oneof![6 => Just(Ctor::WithReloader), 1 => Just(Ctor::WithoutHotReloading), 1 => Just(Ctor::SourceWithoutSupport), 1 => Just(Ctor::Local)];
+        let ctor = prop_oneof![6 => Just(Ctor::WithReloader), 1 => Just(Ctor::WithoutHotReloading), 1 => Just(Ctor::SourceWithoutSupport), 1 => Just(Ctor::Local), 1 => Just(Ctor::ConfigureFails)];
         (ctor, prop::collection::vec(op_strategy(), 3..40))
             .prop_map(|(ctor, mut ops)| {
                 ops.push(Op::Barrier);
@@ -439,6 +446,14 @@ impl Prop for C10 {
                 drive!(cache, hot_src, c, out, model, true);
                 drop(cache);
             }
+            Ctor::ConfigureFails => {
+                let f_src = MemSource::new_failing_configure();
+                populate(&f_src);
+                let mut cache = AssetCache::with_source(f_src.handle());
+                world::register_cache(f_src.tag(), &cache);
+                drive!(cache, f_src, c, out, model, true);
+                drop(cache);
+            }
             Ctor::Local => {
                 let mut cache = LocalAssetCache::with_source(src.handle());
                 drive!(cache, src, c, out, model, false);
@@ -458,6 +473,6 @@ impl Prop for C10 {
     }
 
     fn required_labels(&self) -> Vec<&'static str> {
-        vec!["frozen-entry-on-known-key", "live-reloads-observed", "Local", "WithoutHotReloading"]
+        vec!["frozen-entry-on-known-key", "live-reloads-observed", "Local", "WithoutHotReloading", "ConfigureFails"]
     }
 }
